@@ -2,7 +2,7 @@
  * Oracle: MGRS latitude bands C..X: 8 degrees each from 80S, southern edge included, band X extended to 84N
  * (and beyond, clamped); numbered -10..9.  -- C05, C04 */
 /*@ clause pre.range src=call-site */
-__CPROVER_requires(!isnan(lat) && -2000000000.0 <= lat && lat <= 2000000000.0)
+__CPROVER_requires(!isnan(lat))
 /*@ clause frame src=property props=C14 */
 __CPROVER_assigns()
 /*@ clause post.range src=standard props=C05 */
